@@ -299,8 +299,14 @@ impl Subscriber for SubscriberService {
                     return Ok(Response::new(PullResponse { received_messages }));
                 }
 
-                // Otherwise, wait for messages to be available.
-                signal.await;
+                // Otherwise, wait for messages to be available, or for the
+                // subscription to be deleted.
+                tokio::select! {
+                    _ = signal => {},
+                    _ = subscription.deleted() => {
+                        return Err(subscription_not_found(&subscription_name));
+                    }
+                }
             }
         };
 
